@@ -60,10 +60,15 @@ CHECKS = {
          "Seeded search over (function family, parameters, history of <= 30 cache-relevant operations incl. empty batch, duplicates, repeated points, 2-D/3-D vectorised calls). Values equal the un-cached twin's eval at every position of every interleaving; shapes are (#points, output_length); the evaluation counter equals the reference cache's count while caching is on. The analytic-integral clause is a pure function and is evaluated as a stateless side-oracle on the same runs (counted separately): analytic integral over seeded boxes vs tensor Gauss-Legendre quadrature split at the family's kinks. Six slips found here were repaired.",
          "Trusted: harness twin/reference cache, Gauss-Legendre quadrature with 14 nodes per smooth piece (midpoint rule with 12% tolerance for the diagonal-discontinuity family, dim <= 3).",
          "DESIGN.md section 5, C12"),
+ "C18": ("dataset_sim", "exploration",
+         "deterministic simulation: seeded operation sequences (incl. invalid requests) on a pool of live DataSet objects against a multiset reference model with reference samples for revert",
+         "Seeded search over initial data (0..40 samples, 1-4 dims, unlabelled samples, ties, duplicates) and <= 25 operations over a pool of up to six live, mutually derived sets, so that aliasing between a set and the sets derived from it is exercised. After every operation: scale maps extremes onto the range ends (affine), revert restores the reference samples (before the first scaling since the last overriding rescale), sample-moving operations preserve the (sample,label) multiset with labels attached (tolerant matching), derived sets carry the scaling attributes, concatenation across scalings and out-of-range removals are refused with the operands unchanged. shuffle() draws from the global PRNG, which the run seed owns. Five genuine defects found here were repaired.",
+         "Trusted: the reference model in engines/dataset_sim.py. Exceptions on degenerate sets (empty, coinciding samples) are accepted when the set is unchanged. Revert is judged on sets whose membership did not change since the first scaling.",
+         "DESIGN.md section 5, C18"),
 }
 
 _P = "claimed by DESIGN.md but the check is not built yet in this tree; listed here until its engine is registered"
-PENDING = {k: _P for k in ["C15", "C17", "C18", "C19"]}
+PENDING = {k: _P for k in ["C15", "C17", "C19"]}
 
 def main():
     checks = []
